@@ -103,12 +103,12 @@ def universe():
 
 def plan(tier, seed):
     if tier == 'quick':
-        return {'n': 45000, 'deadline': 150, 'floor': {'distinct_nontrivial': 5000, 'unifiable': 5000,
+        return {'n': 45000, 'deadline': 150, 'floor': {'lifo_histories': 1, 'lifo_chains_of_17_or_more_links': 1, 'distinct_nontrivial': 5000, 'unifiable': 5000,
                                                        'not_unifiable': 5000, 'online_yields_checked': 20000,
                                                        'with_prior_stack': 10000}}
     u = len(universe())
     return {'n': 600000 + u * u, 'deadline': 500, 'exh': u * u,
-            'floor': {'distinct_nontrivial': 100000, 'unifiable': 100000, 'not_unifiable': 100000,
+            'floor': {'lifo_histories': 1, 'lifo_chains_of_17_or_more_links': 1, 'distinct_nontrivial': 100000, 'unifiable': 100000, 'not_unifiable': 100000,
                       'online_yields_checked': 400000, 'with_prior_stack': 200000, 'exhaustive_pairs': u * u}}
 
 
